@@ -105,6 +105,45 @@ func tagMismatch(v reflect.Value, id int64, allowExtraKeys bool) string {
 	return ""
 }
 
+// sharePool hands the same map / slice object to many concurrent requests:
+// data an application keeps at package level (default settings, a tag list)
+// and only ever reads. Generated code that writes to its inputs shows up as
+// a race on these objects.
+type sharePool struct {
+	mu sync.Mutex
+	m  map[reflect.Type]reflect.Value
+	n  int64
+}
+
+func (p *sharePool) share(v reflect.Value, depth int) {
+	if depth > 6 || !v.IsValid() {
+		return
+	}
+	switch v.Kind() {
+	case reflect.Struct:
+		if v.Type() == timeType {
+			return
+		}
+		for i := 0; i < v.NumField(); i++ {
+			if f := v.Field(i); f.CanSet() {
+				p.share(f, depth+1)
+			}
+		}
+	case reflect.Map, reflect.Slice:
+		if v.Len() == 0 || (v.Kind() == reflect.Slice && v.Type().Elem().Kind() == reflect.Uint8) {
+			return
+		}
+		p.mu.Lock()
+		if s, ok := p.m[v.Type()]; ok {
+			v.Set(s)
+			p.n++
+		} else {
+			p.m[v.Type()] = reflect.ValueOf(v.Interface())
+		}
+		p.mu.Unlock()
+	}
+}
+
 // modeRace (C20): many goroutines drive ONE API value and ONE Client value
 // with per-request unique values; the process runs under the race detector.
 func modeRace(c *Ctx) {
@@ -127,6 +166,7 @@ func modeRace(c *Ctx) {
 		}
 	}
 	implsOf := map[string][]*respImpl{}
+	pool := &sharePool{m: map[reflect.Type]reflect.Value{}}
 	var inflight, high, seq int64
 	var yields int64
 	var orderMu sync.Mutex
@@ -153,6 +193,8 @@ func modeRace(c *Ctx) {
 			}
 			if err != nil {
 				c.Viol("isolation", "Parse() failed for a request built by the client under concurrency", fmt.Sprintf("%s id=%d", op.Key, id), "success", err.Error())
+			} else if id%4 == 1 {
+				// this request's body carries the shared read-only containers
 			} else if d := tagMismatch(params, id, true); d != "" {
 				c.Viol("isolation", "a handler observed a value that does not belong to its own request", fmt.Sprintf("%s id=%d", op.Key, id), fmt.Sprintf("only req%d / %d", id, id), d)
 			}
@@ -176,6 +218,11 @@ func modeRace(c *Ctx) {
 					b.Set(reflect.ValueOf(io.Reader(yr)))
 				} else {
 					b.Set(reflect.ValueOf(io.ReadCloser(yr)))
+				}
+			}
+			if id%4 == 0 {
+				if b := v.FieldByName("Body"); b.IsValid() && b.CanSet() {
+					pool.share(b, 0)
 				}
 			}
 			runtime.Gosched()
@@ -342,6 +389,11 @@ func modeRace(c *Ctx) {
 							b.Set(reflect.ValueOf(io.ReadCloser(yr)))
 						}
 					}
+					if id%4 == 1 {
+						if b := params.FieldByName("Body"); b.IsValid() && b.CanSet() {
+							pool.share(b, 0)
+						}
+					}
 					ctx := context.WithValue(context.Background(), raceIDKey{}, id)
 					outs := op.ClientM.Func.Call([]reflect.Value{cl, reflect.ValueOf(ctx), params})
 					c.Stat("requests", 1)
@@ -357,7 +409,9 @@ func modeRace(c *Ctx) {
 					if !res.IsValid() {
 						continue
 					}
-					if d := tagMismatch(res, id, true); d != "" {
+					if id%4 == 0 {
+						// the handler answered with the shared read-only containers
+					} else if d := tagMismatch(res, id, true); d != "" {
 						c.Viol("isolation", "a caller received a response that does not belong to its request", fmt.Sprintf("%s id=%d", op.Key, id), fmt.Sprintf("only req%d / %d", id, id), d)
 					}
 				}
@@ -387,6 +441,7 @@ func modeRace(c *Ctx) {
 	c.mu.Lock()
 	c.stats["inflight_high_water"] = int(atomic.LoadInt64(&high))
 	c.stats["distinct_interleavings"] = len(sigs)
+	c.stats["shared_container_uses"] = int(pool.n)
 	c.stats["yield_points_hit"] = int(atomic.LoadInt64(&yields))
 	c.mu.Unlock()
 	c.Distinct("race:" + c.Case.ID)
